@@ -107,6 +107,7 @@ def generate(rng, tier):
         if rng.random() < 0.25:
             ops.append({"t": round(rng.choice([5.0, 100.0, 900.0, 1500.0, 3000.0]) + rng.random(), 6), "op": "cancel",
                         "h": "B", "id": b["id"]})
+    extra = {}
     if rng.random() < 0.06:
         # the application creates the browser in the instant it creates the instance, and the process is descheduled
         # for some seconds before the instance has finished starting (a VM pause, blocking start-up code)
@@ -115,13 +116,20 @@ def generate(rng, tier):
                 o["t"] = 0.0
         for b in browsers:
             b["t"] = 0.0
-        ops.append({"t": rng.choice([0.0000001, 0.00001, 0.0002]), "op": "stall", "h": "B",
-                    "dur": rng.choice([0.5, 3.0, 8.9, 9.05, 9.5, 12.0])})
+        dur = rng.choice([0.5, 3.0, 8.9, 9.05, 9.5, 12.0, 20.0])
+        if rng.random() < 0.5:
+            ops.append({"t": rng.choice([0.0, 0.0, 0.0000001, 0.0002]), "op": "stall", "h": "B", "dur": dur})
+        else:
+            # ... after a number of loop iterations: the sockets of the instance are half set up, the browser's wait
+            # for the start has armed its time-out
+            extra["stall_step"] = [rng.choice([2, 3, 4, 5, 6, 7, 8]), dur]
+            extra["layout"] = rng.choice(["default", "multi"])
     ops = [o for o in ops if 0.0 <= o["t"] < horizon - 1.0]
     ops.sort(key=lambda o: o["t"])
     faults = {"max_delay_us": rng.choice([0, 1000, 100000]), "loop_delay_us": rng.choice([0, 1000]),
               "dup_p": rng.choice([0.0, 0.1])}
-    return {"timer_slop_us": rng.choice([0, 0, 1, 50, 300]), "ops": ops, "faults": faults, "end": horizon, "browsers": browsers}
+    return {"timer_slop_us": rng.choice([0, 0, 1, 50, 300]), "ops": ops, "faults": faults, "end": horizon,
+            "browsers": browsers, **extra}
 
 
 def _kept_slot_cause(hist, k, lo, delay, tq, first_deadline):
@@ -169,6 +177,17 @@ def execute(scenario, seed, overrides=None):
                     updates.append((t, i, "del", None, None))
 
         w.net.on_rx = on_rx
+
+        ss = scenario.get("stall_step")
+        if ss:
+            # the process is descheduled after its k-th loop iteration: in the middle of the instance's start-up, after
+            # the tasks of that instant have taken their first steps (and armed their time-outs)
+            def on_step(n, k=ss[0], dur=ss[1], fired=[False]):
+                if n >= k and not fired[0] and "B" in w.hosts:
+                    fired[0] = True
+                    drv.op_stall({"op": "stall", "h": "B", "dur": dur})
+
+            w.loop.on_step = on_step
 
         async def main():
             w.add_host("B", "10.0.0.2", layout=scenario.get("layout", "default"))
@@ -224,7 +243,9 @@ def _oracle(w, drv, sc, model, updates, out):
                         f"queried at {[round(w.rel(t), 3) for t in lateq][:4]}")
             passes = [p for p in passes if p[0] <= lst.cancelled + 1e-9]
         # (a) start-up
-        if (lst.cancelled if lst.cancelled is not None else end) - start > 15.0:
+        c_end = lst.cancelled if lst.cancelled is not None else end
+        stalled = sum(max(0.0, min(b2, c_end) - max(a2, start)) for a2, b2, hn in drv.stalls if hn == "B")
+        if c_end - start - stalled > 15.0:
             if len(passes) < 4:
                 out.add("C10.startup-count", f"browser {b['id']}: only {len(passes)} queries within the run, expected 4 "
                         "start-up queries")
@@ -236,10 +257,12 @@ def _oracle(w, drv, sc, model, updates, out):
             if not (0.020 - 1e-9 <= t1 - start <= 0.120 + SLACK + (stall_end - start)):
                 out.add("C10.startup-first-delay", f"browser {b['id']}: first query {1000 * (t1 - start):.3f} ms after "
                         "start, expected 20..120 ms")
-            exp = t1
             for k, gap in enumerate(STARTUP_GAPS):
-                exp += gap
-                if abs(passes[k + 1][0] - exp) > SLACK:
+                # (each gap counts from the pass before it; a pass that falls due while the process is descheduled
+                # runs when the process comes back)
+                exp = passes[k][0] + gap
+                hi = max([b2 for a2, b2, hn in drv.stalls if hn == "B" and a2 <= exp + SLACK < b2 + SLACK] + [exp])
+                if not (exp - SLACK <= passes[k + 1][0] <= hi + SLACK):
                     out.add("C10.startup-backoff", f"browser {b['id']}: start-up query {k + 2} at +"
                             f"{passes[k + 1][0] - t1:.3f}s, expected +{exp - t1:.3f}s")
                     break
